@@ -38,6 +38,10 @@ ACCEPTED SUBSET (anything else raises Unsupported -> exit code 3; never a silent
   in templates: np.isclose / np.allclose / allclose / isclose / mutil.allclose / mutil.isclose calls get their atol= / rtol= keywords
                made explicit (missing keyword -> hole filled with numpy's default), more than two positional arguments are rejected;
                any other mention of `Settings` is rejected.
+  _generate_origin_obj / _generate_zero_obj of the four classes: symbolic evaluation of `np.zeros(..)`, `X[i] = s` / `X[i][j] = s` / `X[i, j] = s`,
+               `X.copy()`, `np.hstack([np.array([s], dtype=np.float64), np.zeros(..)])`, a nested `def f(): return <expr>`, a list comprehension over
+               self.vecs / self.hss / range(len(..)) whose element does not depend on the loop variable; scalars s: 1, np.sqrt(self.dim),
+               len(self.vecs|self.hss), quotients -> [arr] / [scal] of C01_Glue.v (shapes are not interpreted)
 TRUSTED: this file; the reading of the templates in coq/gen/C01_Equiv.v.
 """
 import ast
@@ -332,6 +336,7 @@ class Translator:
         self.templates = []
         self.where = []
         self.defs = []
+        self.const_defs = []
 
     def template_id(self, text, label):
         if text in self.templates:
@@ -422,6 +427,9 @@ class Translator:
             self.function(mp, "MProcess", n, "gen_MProcess_" + n)
         self.ctor_guards(mp, "MProcess", "gen_MProcess_init_guards")
         self.settings()
+        for tree, cls in ((st, "State"), (pv, "Povm"), (gt, "Gate"), (mp, "MProcess")):
+            self.const_array(tree, cls, "_generate_origin_obj", "gen_%s_origin" % cls)
+            self.const_array(tree, cls, "_generate_zero_obj", "gen_%s_zero" % cls)
 
     def settings(self):
         """quara/settings.py: Settings.get_atol / Settings.set_atol (classmethods over one name-mangled class attribute)"""
@@ -469,6 +477,107 @@ class Translator:
         self.settings_defs = out
         self.settings_consts = consts
 
+    # ---- _generate_origin_obj / _generate_zero_obj: symbolic evaluation of "zeros with one entry set"
+    def const_array(self, tree, cls, name, coq):
+        f = self.find(tree, cls, name)
+        if f.decorator_list or [a.arg for a in f.args.args] != ["self"]:
+            raise Unsupported("%s: signature" % coq)
+        env, funcs = {}, {}
+
+        def scal(e):
+            if isinstance(e, ast.Constant) and isinstance(e.value, (int, float)) and not isinstance(e.value, bool) and e.value == 1:
+                return "SOne"
+            if isinstance(e, ast.Call) and src(e.func) == "np.sqrt" and len(e.args) == 1 and not e.keywords and src(e.args[0]) == "self.dim":
+                return "SSqrtDim"
+            if isinstance(e, ast.Call) and src(e.func) == "len" and len(e.args) == 1 and src(e.args[0]) in ("self.vecs", "self.hss"):
+                return "SLen"
+            if isinstance(e, ast.BinOp) and isinstance(e.op, ast.Div):
+                return "(SDiv %s %s)" % (scal(e.left), scal(e.right))
+            fail(e, "scalar expression not in the subset: %s" % src(e))
+
+        def is_zeros(e):
+            return isinstance(e, ast.Call) and src(e.func) == "np.zeros" and len(e.args) == 1 and all(k.arg == "dtype" and src(k.value) == "np.float64" for k in e.keywords)
+
+        def val(e):
+            """-> ("arr", {index tuple: scalar}) | ("rep", arrvalue, iter source) | ("opaque",)"""
+            if is_zeros(e):
+                return ("arr", {})
+            if isinstance(e, ast.Name):
+                if e.id not in env:
+                    fail(e, "unbound name %s" % e.id)
+                return env[e.id]
+            if isinstance(e, ast.Call) and isinstance(e.func, ast.Attribute) and e.func.attr == "copy" and not e.args and not e.keywords:
+                v = val(e.func.value)
+                if v[0] != "arr":
+                    fail(e, ".copy() of a non-array")
+                return ("arr", dict(v[1]))
+            if isinstance(e, ast.Call) and isinstance(e.func, ast.Name) and e.func.id in funcs and not e.args and not e.keywords:
+                return val(funcs[e.func.id])
+            if isinstance(e, ast.Call) and src(e.func) == "np.hstack" and len(e.args) == 1 and not e.keywords and isinstance(e.args[0], ast.List) and len(e.args[0].elts) == 2:
+                a, z = e.args[0].elts
+                if (isinstance(a, ast.Call) and src(a.func) == "np.array" and len(a.args) == 1 and isinstance(a.args[0], ast.List) and len(a.args[0].elts) == 1
+                        and all(k.arg == "dtype" and src(k.value) == "np.float64" for k in a.keywords) and is_zeros(z)):
+                    return ("arr", {(0,): scal(a.args[0].elts[0])})
+                fail(e, "np.hstack pattern")
+            if isinstance(e, ast.ListComp) and len(e.generators) == 1 and not e.generators[0].ifs and isinstance(e.generators[0].target, ast.Name):
+                g = e.generators[0]
+                if g.target.id in names_loaded(e.elt):
+                    fail(e, "list element depends on the loop variable")
+                it = src(g.iter)
+                if it not in ("self.hss", "self.vecs", "range(len(self.vecs))", "range(len(self.hss))"):
+                    fail(e, "list comprehension over %s" % it)
+                v = val(e.elt)
+                if v[0] != "arr":
+                    fail(e, "list of non-arrays")
+                return ("rep", v, it)
+            return ("opaque",)
+
+        result = None
+        for st in f.body:
+            if isinstance(st, ast.Expr) and isinstance(st.value, ast.Constant) and isinstance(st.value.value, str):
+                continue
+            if result is not None:
+                fail(st, "statement after return")
+            if isinstance(st, ast.FunctionDef):
+                body = [b for b in st.body if not (isinstance(b, ast.Expr) and isinstance(b.value, ast.Constant))]
+                if st.args.args or len(body) != 1 or not isinstance(body[0], ast.Return):
+                    fail(st, "nested function is not `def f(): return <expr>`")
+                funcs[st.name] = body[0].value
+            elif isinstance(st, ast.Assign) and len(st.targets) == 1 and isinstance(st.targets[0], ast.Name):
+                env[st.targets[0].id] = val(st.value)
+            elif isinstance(st, ast.Assign) and len(st.targets) == 1 and isinstance(st.targets[0], ast.Subscript):
+                idx, base = [], st.targets[0]
+                while isinstance(base, ast.Subscript):
+                    sl = base.slice
+                    parts = list(sl.elts) if isinstance(sl, ast.Tuple) else [sl]
+                    if not all(isinstance(q, ast.Constant) and isinstance(q.value, int) and q.value >= 0 for q in parts):
+                        fail(st, "index is not a non-negative integer literal")
+                    idx = [q.value for q in parts] + idx
+                    base = base.value
+                if not isinstance(base, ast.Name) or env.get(base.id, ("x",))[0] != "arr":
+                    fail(st, "subscript assignment to a non-array")
+                env[base.id][1][tuple(idx)] = scal(st.value)
+            elif isinstance(st, ast.Return) and st.value is not None:
+                result = val(st.value)
+            else:
+                fail(st, "statement not in the subset: %s" % src(st).splitlines()[0])
+        if result is None or result[0] == "opaque":
+            raise Unsupported("%s: result is not a constant array / list of constant arrays" % coq)
+        it = ""
+        if result[0] == "rep":
+            it, result = result[2], result[1]
+        ent = result[1]
+        if len(ent) == 0:
+            term = "AZeros"
+        elif len(ent) == 1:
+            (ix, sc), = ent.items()
+            term = ("ASet1 %d %s" % (ix[0], sc)) if len(ix) == 1 else ("ASet2 %d %d %s" % (ix[0], ix[1], sc)) if len(ix) == 2 else None
+            if term is None:
+                raise Unsupported("%s: index of rank %d" % (coq, len(ix)))
+        else:
+            raise Unsupported("%s: more than one entry set" % coq)
+        self.const_defs.append((coq, term, it))
+
     def emit(self):
         # canonical numbering: position in the SORTED table, so that merely reordering operands / functions does not renumber
         order = sorted(range(len(self.templates)), key=lambda i: self.templates[i])
@@ -488,6 +597,10 @@ class Translator:
             out.append("Definition %s_params : list string := [%s]." % (coq, "; ".join('"%s"' % p for p in params)))
             out.append("Definition %s : stmt := %s." % (coq, body))
             out.append("")
+        for coq, term, it in self.const_defs:
+            out.append("Definition %s : arr := %s." % (coq, term))
+            out.append("Definition %s_iter : string := %s." % (coq, coq_str(it)))
+        out.append("")
         for coq, term in self.settings_defs:
             out.append("Definition %s : sstmt := %s." % (coq, term))
         out.append("Definition gen_Settings_class_attrs : list (string * string) := [%s]."
